@@ -79,10 +79,17 @@ type recorder struct {
 	wrote  map[int]bool // clients that are through with their writes
 }
 
-func (r *recorder) add(e ev) {
+func (r *recorder) add(e ev) { r.addf(e, nil) }
+
+// addf records e and runs f (bookkeeping the orchestrator polls) in the same critical section, so that
+// nothing the orchestrator concludes from the bookkeeping is recorded before the event itself
+func (r *recorder) addf(e ev, f func()) {
 	r.mu.Lock()
 	e["n"] = len(r.evs) + 1
 	r.evs = append(r.evs, e)
+	if f != nil {
+		f()
+	}
 	r.mu.Unlock()
 }
 
@@ -162,19 +169,13 @@ func runScenario(sc scenario, stopTimeout time.Duration) []ev {
 			peer := c.RemoteAddr().String()
 			r.add(ev{"ev": "hstart", "peer": peer})
 			origConn(l, &recConn{Conn: c, r: r, peer: peer})
-			r.mu.Lock()
-			r.hret[peer] = true
-			r.mu.Unlock()
-			r.add(ev{"ev": "hret", "peer": peer})
+			r.addf(ev{"ev": "hret", "peer": peer}, func() { r.hret[peer] = true })
 		}
 		l.HandleData = func(l *input.Listener, data []byte, src net.Addr) {
 			k := hex.EncodeToString(data)
 			r.add(ev{"ev": "ustart", "data": k})
 			origData(l, data, src)
-			r.mu.Lock()
-			r.uret[k] = true
-			r.mu.Unlock()
-			r.add(ev{"ev": "uret", "data": k})
+			r.addf(ev{"ev": "uret", "data": k}, func() { r.uret[k] = true })
 		}
 	}
 	for try := 0; ; try++ {
@@ -223,10 +224,7 @@ func runScenario(sc scenario, stopTimeout time.Duration) []ev {
 			}
 			defer conn.Close()
 			la := conn.LocalAddr().String()
-			r.mu.Lock()
-			r.laddr[cl.C] = la
-			r.mu.Unlock()
-			r.add(ev{"ev": "cconn", "c": cl.C, "laddr": la})
+			r.addf(ev{"ev": "cconn", "c": cl.C, "laddr": la}, func() { r.laddr[cl.C] = la })
 			for j, w := range cl.Writes {
 				b, _ := hex.DecodeString(w)
 				if j > 0 && cl.GapUs > 0 {
